@@ -15,7 +15,8 @@
    would do it (guards marked OOB).  Every while loop takes explicit fuel and
    returns None when it runs out.
 
-   Gradient comparisons: ggt a b is "a > b" (and "b < a"), geq is "==", nmin is
+   Gradient comparisons: ggt a b is "a > b" (and "b < a"), geq is "==" (used only by the
+   pre-fix loops del_up*_prefix), nmin is
    _find_value_min_value, ncontrib n ang is the closed-span test check_me together
    with the interpolated gradient of phase 2 of _find_max_value_within_key. *)
 Require Import Base.Prelude.
@@ -333,19 +334,31 @@ Section Tree.
     if hleft h x =? NIL then Some x
     else match fuel with O => None | S f => tree_minimum f h (hleft h x) end.
 
-  (* "fix augmentation for removing y" *)
-  Fixpoint del_up1 (fuel : nat) (h : heap) (ymin : G) (cur : Z) : option heap :=
+  (* "fix augmentation for removing y" (fixed code, commit e4337e3): EVERY ancestor of y is
+     recomputed from its children and its own gradients *)
+  Fixpoint del_up1 (fuel : nat) (h : heap) (cur : Z) : option heap :=
+    if hparent h cur =? NIL then Some h
+    else match fuel with
+         | O => None
+         | S f => let cp := hparent h cur in del_up1 f (recompute h cp) cp
+         end.
+
+  (* the loop after the successor copy (fixed code): every ancestor of z is recomputed *)
+  Definition del_up2 := del_up1.
+
+  (* ---- the loops as they were BEFORE the fix e4337e3 (kept only to state what was wrong:
+     they stop / skip on equality tests that assume exact ancestors) ---- *)
+  Fixpoint del_up1_prefix (fuel : nat) (h : heap) (ymin : G) (cur : Z) : option heap :=
     if hparent h cur =? NIL then Some h
     else match fuel with
          | O => None
          | S f =>
            let cp := hparent h cur in
-           if geq (hmax h cp) ymin then del_up1 f (recompute h cp) ymin cp
+           if geq (hmax h cp) ymin then del_up1_prefix f (recompute h cp) ymin cp
            else Some h
          end.
 
-  (* the loop after the successor copy (lines 665-697) *)
-  Fixpoint del_up2 (fuel : nat) (h : heap) (zgrad : G) (x z : Z) : option heap :=
+  Fixpoint del_up2_prefix (fuel : nat) (h : heap) (zgrad : G) (x z : Z) : option heap :=
     if hparent h z =? NIL then Some h
     else match fuel with
          | O => None
@@ -361,7 +374,7 @@ Section Tree.
                then recompute h zp else h
              else
                if ggt (hmax h z) (hmax h zp) then set_max h zp (hmax h z) else h in
-           del_up2 f h zgrad x zp
+           del_up2_prefix f h zgrad x zp
          end.
 
   (* one iteration of the while loop of _rb_delete_fixup (x != root, x BLACK) *)
@@ -455,8 +468,11 @@ Section Tree.
   | DNotFound                (* ValueError("node not found") *)
   | DNoSucc.                 (* ValueError("successor not found") *)
 
-  (* _delete_from_tree(tree_vals, tree_nodes, root, key) *)
-  Definition t_delete (fuel : nat) (t : tree) (key : K) : option dres :=
+  (* _delete_from_tree(tree_vals, tree_nodes, root, key), generic in the two maximum-repair
+     loops (up1 fuel h ymin y; up2 fuel h zgrad x z) *)
+  Definition t_delete_gen (up1 : nat -> heap -> G -> Z -> option heap)
+             (up2 : nat -> heap -> G -> Z -> Z -> option heap)
+             (fuel : nat) (t : tree) (key : K) : option dres :=
     let h := th t in
     let root := troot t in
     match search fuel h root key with
@@ -482,7 +498,7 @@ Section Tree.
             let h := fst (fst hrf) in
             let root := snd (fst hrf) in
             let to_fix := snd hrf in
-            match del_up1 fuel h (hmin h y) y with
+            match up1 fuel h (hmin h y) y with
             | None => None
             | Some h =>
               if to_fix =? NIL then None      (* OOB: to_fix_left = NIL's left = num_nodes *)
@@ -492,7 +508,7 @@ Section Tree.
                          let zgrad := hmin h z in
                          let h := set_kv h z (hkey h y) (hval h y) in
                          let h := refresh h z (hmax h (hleft h z)) (hmax h (hright h z)) in
-                         del_up2 fuel h zgrad x z
+                         up2 fuel h zgrad x z
                        else Some h) with
                 | None => None
                 | Some h =>
@@ -506,6 +522,13 @@ Section Tree.
             end
         end
     end.
+
+  (* the code as it is (fixed) *)
+  Definition t_delete : nat -> tree -> K -> option dres :=
+    t_delete_gen (fun fuel h _ y => del_up1 fuel h y) (fun fuel h _ _ z => del_up2 fuel h z).
+  (* the code before the fix *)
+  Definition t_delete_prefix : nat -> tree -> K -> option dres :=
+    t_delete_gen del_up1_prefix del_up2_prefix.
 
   (* ---- the tree driven with operation sequences, as the harness drives the real
      functions: ids come from the idle stack of _viewshed_cpu_sweep (_pop / _push) ---- *)
@@ -526,7 +549,7 @@ Section Tree.
     (* idle[i] = num_nodes - i, top of stack at index num_nodes - 2: pops 2, 3, ... *)
     mkC (tree_create k0 v0 num_nodes) (ziota 2 (Z.to_nat (num_nodes - 2))) 1.
 
-  Definition c_step (s : cstate) (o : cop) : cres * cstate :=
+  Definition c_step_gen (del : nat -> tree -> K -> option dres) (s : cstate) (o : cop) : cres * cstate :=
     match o with
     | CI k v =>
       match c_idle s with
@@ -538,7 +561,7 @@ Section Tree.
         end
       end
     | CD k =>
-      match t_delete (c_fuel s) (c_tree s) k with
+      match del (c_fuel s) (c_tree s) k with
       | None => (RStop, s)
       | Some DNotFound => (RNotFound, s)
       | Some DNoSucc => (RNotFound, s)
@@ -551,6 +574,9 @@ Section Tree.
       | Some QTooLarge => (RQErr, s)
       end
     end.
+
+  Definition c_step := c_step_gen t_delete.
+  Definition c_step_prefix := c_step_gen t_delete_prefix.
 
   Fixpoint c_run (s : cstate) (ops : list cop) : list cres :=
     match ops with
